@@ -73,7 +73,7 @@ def run(module, cfg=None, env=None, workers=1, timeout=600, args=(), spec_dir=SP
     meta = tempfile.mkdtemp(prefix="tlcmeta-")
     cmd = [
         "java", "-XX:+UseParallelGC", f"-Xmx{heap}", "-Xss32m", "-Dtlc2.tool.fp.FPSet.impl=tlc2.tool.fp.OffHeapDiskFPSet",
-        f"-DTLA-Library={spec_dir}",
+        f"-DTLA-Library={spec_dir}", f"-Djava.io.tmpdir={meta}",
         "-cp", f"{BUILD}:{JAR}:{CM}", "tlc2.TLC",
         "-workers", str(workers), "-metadir", meta, "-noGenerateSpecTE",
         "-config", os.path.join(spec_dir, cfg),
